@@ -231,3 +231,8 @@ func request(args ...string) []byte {
 	}
 	return encVal(v)
 }
+
+// redisIntRaw builds an integer message with an arbitrary payload.
+func redisIntRaw(p []byte) *redis.Message {
+	return proto.NewMessageWithType(proto.IntegerMessage).SetBytes(p)
+}
